@@ -1,7 +1,683 @@
-//! Model-backed runs for the sonic scheme: `run(ctx, prop)` is called for every property; handle the
-//! properties this scheme takes part in and return immediately for the others.
+//! Model-backed runs for the sonic scheme (SonicKZG10, trapdoor mode): `run(ctx, prop)` is called for
+//! every property; handle the properties this scheme takes part in and return for the others.
+#[path = "sonic.rs"]
+pub mod sonic;
+
+use crate::common::*;
+use crate::wire;
 use crate::Ctx;
+use ark_bls12_381::Fr;
+use ark_ec::{AffineRepr, CurveGroup};
+use ark_ff::{UniformRand, Zero};
+use ark_poly::{DenseUVPolynomial, Polynomial};
+use ark_poly_commit::{LabeledPolynomial, PCCommitterKey, PolynomialCommitment};
+use sonic::*;
+use std::ops::Mul;
 
 pub fn run(ctx: &mut Ctx, prop: &str) {
-    let _ = (ctx, prop);
+    match prop {
+        "C01" => c01(ctx),
+        "C02" => c02(ctx),
+        "C03" => c03(ctx),
+        "C04" => c04(ctx),
+        "C05" => c05(ctx),
+        "C08" => c08(ctx),
+        "C09" => c09(ctx),
+        "C10" => c10(ctx),
+        _ => {}
+    }
+}
+
+fn replay(c: &Case, id: &str, seed: u64, extra: &str) -> String {
+    format!(
+        "# scheme: sonic\n# case: {}\n# seed: {}\n# {}\n# trapdoor beta={} g={} gamma={} h={}\n# {}\n# rerun: .build/cargo/debug/pcv-harness {} --seed {} --only {}\n",
+        id, seed, c.desc(),
+        wire::fe(&c.trap.beta), wire::fe(&c.trap.g), wire::fe(&c.trap.gamma), wire::fe(&c.trap.h),
+        extra, id.split('/').next().unwrap_or(""), seed, id
+    )
+}
+
+fn new_case(ctx: &mut Ctx, rng: &mut Rng, id: &str, npoly: usize) -> Option<Case> {
+    let max_d = if ctx.thorough { 48 } else { 20 };
+    match guarded(|| gen_case(rng, max_d, npoly, true, true)) {
+        Ok(Ok(c)) => Some(c),
+        Ok(Err(e)) | Err(e) => {
+            ctx.rep.expect_fail(id, "sonic/in-domain-setup-refused", &format!("trim/commit refused an in-domain request: {}", e),
+                format!("# scheme: sonic\n# case: {}\n# seed: {}\n# {}\n# rerun: .build/cargo/debug/pcv-harness {} --seed {} --only {}\n", id, ctx.seed, e, id.split('/').next().unwrap_or(""), ctx.seed, id));
+            None
+        }
+    }
+}
+
+fn counts(ctx: &mut Ctx, c: &Case) {
+    for k in &c.kinds { ctx.rep.count(&format!("sonic/poly-{}", k)); }
+    ctx.rep.count(&format!("sonic/bounded-{}", c.polys.iter().filter(|p| p.degree_bound().is_some()).count()));
+    ctx.rep.count(&format!("sonic/hiding-{}", c.polys.iter().filter(|p| p.hiding_bound().is_some()).count()));
+}
+
+// ------------------------------------------------------------------------------------------------
+// C01: honest trim / commit / open / check / batch_open / batch_check, all outputs equal the model
+// ------------------------------------------------------------------------------------------------
+fn c01(ctx: &mut Ctx) {
+    let n = ctx.n(25, 300);
+    for i in 0..n {
+        let id = format!("C01/sonic-model/{}", i);
+        if !ctx.selected(&id) { continue; }
+        let mut rng = rng_for(ctx.seed, "C01/sonic-model", i as u64);
+        let npoly = range(&mut rng, 1, 4);
+        let c = match new_case(ctx, &mut rng, &id, npoly) { Some(c) => c, None => continue };
+        ask_trim_commit(ctx, &id, &c);
+        let (cs, vks) = match (c.comm_scalars(), c.vk_scalars()) {
+            (Some(x), Some(y)) => (x, y),
+            _ => {
+                ctx.rep.expect_fail(&id, "sonic/commitment-not-key-defined", "commitment differs from beta^(D-d)*(g*p(beta)+gamma*r(beta)), or a key element from its trapdoor value", replay(&c, &id, ctx.seed, ""));
+                continue;
+            }
+        };
+        match open_all(ctx, &mut rng, &id, &c) {
+            Ok(o) => {
+                if g1(o.w_s) != o.proof.w {
+                    ctx.rep.expect_fail(&id, "sonic/witness-not-key-defined", "witness differs from the trapdoor-defined value", replay(&c, &id, ctx.seed, ""));
+                } else {
+                    let out = check_scalar(ctx, &id, &c, &vks, &vks, &cs, o.z, &o.values, o.w_s, o.proof.random_v);
+                    if out != Outcome3::Accept {
+                        ctx.rep.expect_fail(&id, "sonic/honest-rejected", &format!("honest proof not accepted: {:?}", out), replay(&c, &id, ctx.seed, "check(honest)"));
+                    }
+                }
+            }
+            Err(e) => ctx.rep.expect_fail(&id, "sonic/honest-open-refused", &format!("open refused: {}", e), replay(&c, &id, ctx.seed, "")),
+        }
+        // trait-default batch_open + Sonic batch_check
+        let nl = range(&mut rng, 1, 3);
+        let (qs, ev) = gen_queries(&mut rng, &c, nl);
+        match batch_open(ctx, &mut rng, &id, &c, &qs) {
+            Ok((proofs, ws)) => {
+                if ws.len() == proofs.len() && ws.iter().zip(&proofs).all(|(w, p)| g1(*w) == p.w) {
+                    let rvs: Vec<Option<Fr>> = proofs.iter().map(|p| p.random_v).collect();
+                    let out = batch_check_scalar(ctx, &mut rng, &id, &c, &cs, &qs, &ev, &ws, &rvs);
+                    if out != Outcome3::Accept {
+                        ctx.rep.expect_fail(&id, "sonic/honest-batch-rejected", &format!("honest batch not accepted: {:?}", out), replay(&c, &id, ctx.seed, "batch_check(honest)"));
+                    }
+                } else {
+                    ctx.rep.expect_fail(&id, "sonic/witness-not-key-defined", "batch witness differs from the trapdoor-defined value", replay(&c, &id, ctx.seed, ""));
+                }
+            }
+            Err(e) => ctx.rep.expect_fail(&id, "sonic/honest-open-refused", &format!("batch_open refused: {}", e), replay(&c, &id, ctx.seed, "")),
+        }
+        counts(ctx, &c);
+        ctx.rep.case(&c.desc(), Some(format!("sonic/{}/{}/{}", npoly, c.polys.iter().filter(|p| p.degree_bound().is_some()).count(), c.polys.iter().filter(|p| p.hiding_bound().is_some()).count())));
+    }
+    ctx.flush_model("C01-sonic");
+}
+
+// ------------------------------------------------------------------------------------------------
+// mutation catalogue
+// ------------------------------------------------------------------------------------------------
+#[derive(Clone, Copy, Debug, PartialEq, Eq)]
+pub enum M {
+    Value, Point, Comm, CommOtherPoly,
+    BoundRelabel, BoundDrop, BoundAdd, BoundUnsupported,
+    Witness, RandomV, RandomVToggle,
+    VkG, VkGamma, VkH, VkBetaH, VkNegH,
+}
+pub const STATEMENT: &[M] = &[M::Value, M::Point, M::Comm, M::CommOtherPoly];
+pub const BOUNDS: &[M] = &[M::BoundRelabel, M::BoundDrop, M::BoundAdd, M::BoundUnsupported];
+pub const PROOF: &[M] = &[M::Witness, M::RandomV, M::RandomVToggle];
+pub const KEY: &[M] = &[M::VkG, M::VkGamma, M::VkH, M::VkBetaH, M::VkNegH];
+
+/// Apply one mutation to an honest single-point transcript; returns (outcome, must_refuse).
+/// Every mutation is applied in scalar space, so the model decides the very same statement.
+pub fn mutate(ctx: &mut Ctx, rng: &mut Rng, id: &str, c: &Case, cs0: &[CommS], vks: &VkS, o: &Opened, m: M) -> Option<(Outcome3, bool)> {
+    let mut cs = cs0.to_vec();
+    let mut vs = o.values.clone();
+    let mut z = o.z;
+    let mut w = o.w_s;
+    let mut rv = o.proof.random_v;
+    let mut vk = vks.clone();
+    let j = range(rng, 0, cs.len() - 1);
+    let bounded: Vec<usize> = (0..cs.len()).filter(|&i| cs[i].bound.is_some()).collect();
+    let enforced: Vec<usize> = c.ck.enforced_degree_bounds.clone().unwrap_or_default();
+    let big_d = c.trap.max_degree;
+    let must;
+    match m {
+        // defect = -g*h*xi_j*delta
+        M::Value => { vs[j] += rand_nonzero(rng); must = true; }
+        // defect = h*W*dz; W vanishes only when every p_j and r_j is constant, and then the claim stays true
+        M::Point => { z += rand_nonzero(rng); must = c.polys.iter().zip(&vs).any(|(p, v)| p.evaluate(&z) != *v); }
+        // defect = xi_j*delta*shift(b_j)
+        M::Comm => { cs[j].c += rand_nonzero(rng); must = true; }
+        M::CommOtherPoly => {
+            let hi = cs[j].bound.unwrap_or(c.supported);
+            let q = UniPoly::rand(range(rng, 0, hi), rng);
+            let newc = c.shift(cs[j].bound) * c.trap.g * q.evaluate(&c.trap.beta);
+            must = newc != cs[j].c;
+            cs[j].c = newc;
+        }
+        // accepted iff xi*C*(beta^-(D-d') - beta^-(D-d))*h = 0
+        M::BoundRelabel => {
+            let i = *bounded.get(range(rng, 0, bounded.len().max(1) - 1))?;
+            let other: Vec<usize> = enforced.iter().cloned().filter(|d| Some(*d) != cs[i].bound).collect();
+            if other.is_empty() { return None; }
+            cs[i].bound = Some(other[range(rng, 0, other.len() - 1)]);
+            must = !cs[i].c.is_zero();
+        }
+        // the bound D itself has shift beta^0: dropping it does not change the statement
+        M::BoundDrop => {
+            let i = *bounded.get(range(rng, 0, bounded.len().max(1) - 1))?;
+            let d = cs[i].bound?;
+            cs[i].bound = None;
+            must = !cs[i].c.is_zero() && d != big_d;
+        }
+        M::BoundAdd => {
+            let i = (0..cs.len()).find(|&i| cs[i].bound.is_none())?;
+            if enforced.is_empty() { return None; }
+            let d = enforced[range(rng, 0, enforced.len() - 1)];
+            cs[i].bound = Some(d);
+            must = !cs[i].c.is_zero() && d != big_d;
+        }
+        // a bound the key has no G2 element for: refused with UnsupportedDegreeBound
+        M::BoundUnsupported => {
+            let d = (1..=big_d + 1).rev().find(|d| !enforced.contains(d))?;
+            cs[j].bound = Some(d);
+            must = true;
+        }
+        M::Witness => { w = Fr::rand(rng); must = false; }
+        M::RandomV => { rv = Some(Fr::rand(rng)); must = false; }
+        M::RandomVToggle => { rv = match rv { Some(_) => None, None => Some(rand_nonzero(rng)) }; must = false; }
+        M::VkG => { vk.g = rand_nonzero(rng); must = false; }
+        M::VkGamma => { vk.gamma_g = rand_nonzero(rng); must = false; }
+        M::VkH => { vk.h = rand_nonzero(rng); must = false; }
+        M::VkBetaH => { vk.beta_h = rand_nonzero(rng); must = false; }
+        M::VkNegH => {
+            let l = vk.neg_h.as_mut()?;
+            if l.is_empty() { return None; }
+            let k = range(rng, 0, l.len() - 1);
+            l[k].1 = rand_nonzero(rng);
+            must = false;
+        }
+    }
+    let out = check_scalar(ctx, id, c, vks, &vk, &cs, z, &vs, w, rv);
+    Some((out, must))
+}
+
+fn mutation_run(ctx: &mut Ctx, prop: &str, muts: &[M], n: usize) {
+    for i in 0..n {
+        let id0 = format!("{}/sonic-model/{}", prop, i);
+        if !ctx.selected(&id0) { continue; }
+        let mut rng = rng_for(ctx.seed, &format!("{}/sonic-model", prop), i as u64);
+        let npoly = range(&mut rng, 1, 3);
+        let c = match new_case(ctx, &mut rng, &id0, npoly) { Some(c) => c, None => continue };
+        let (cs, vks) = match (c.comm_scalars(), c.vk_scalars()) { (Some(x), Some(y)) => (x, y), _ => continue };
+        let o = match open_all(ctx, &mut rng, &id0, &c) { Ok(o) => o, Err(_) => continue };
+        if g1(o.w_s) != o.proof.w { continue; }
+        for m in muts {
+            let id = format!("{}/{:?}", id0, m);
+            if let Some((out, must)) = mutate(ctx, &mut rng, &id, &c, &cs, &vks, &o, *m) {
+                ctx.rep.count(&format!("sonic/mut-{:?}", m));
+                if must && out == Outcome3::Accept {
+                    ctx.rep.expect_fail(&id, &format!("sonic/false-claim-accepted/{:?}", m), "verifier accepted a changed statement", replay(&c, &id, ctx.seed, &format!("mutation {:?}", m)));
+                }
+                ctx.rep.case(&format!("{} mutation={:?} out={:?}", c.desc(), m, out), Some(format!("sonic/{:?}/{}/{}", m, npoly, c.polys.iter().filter(|p| p.degree_bound().is_some()).count())));
+            }
+        }
+    }
+    ctx.flush_model(&format!("{}-sonic", prop));
+}
+
+fn c02(ctx: &mut Ctx) {
+    let n = ctx.n(20, 300);
+    mutation_run(ctx, "C02", STATEMENT, n);
+    let n = ctx.n(8, 150);
+    batch_mutations(ctx, "C02", n);
+}
+fn c03(ctx: &mut Ctx) {
+    let n = ctx.n(15, 200);
+    mutation_run(ctx, "C03", PROOF, n);
+    let n = ctx.n(15, 200);
+    forged(ctx, "C03", n);
+    let n = ctx.n(6, 100);
+    batch_mutations(ctx, "C03", n);
+}
+fn c04(ctx: &mut Ctx) {
+    let n = ctx.n(30, 400);
+    mutation_run(ctx, "C04", BOUNDS, n);
+    let n = ctx.n(60, 600);
+    admission(ctx, n);
+}
+fn c05(ctx: &mut Ctx) {
+    let n = ctx.n(14, 200);
+    batch_mutations(ctx, "C05", n);
+}
+fn c10(ctx: &mut Ctx) {
+    let n = ctx.n(15, 250);
+    let all: Vec<M> = STATEMENT.iter().chain(BOUNDS).chain(PROOF).chain(KEY).cloned().collect();
+    mutation_run(ctx, "C10", &all, n);
+    let n = ctx.n(5, 80);
+    batch_mutations(ctx, "C10", n);
+}
+
+/// forged proofs together with a false value: honest prover on another polynomial; proof for another point
+fn forged(ctx: &mut Ctx, prop: &str, n: usize) {
+    for i in 0..n {
+        let id = format!("{}/sonic-model-forge/{}", prop, i);
+        if !ctx.selected(&id) { continue; }
+        let mut rng = rng_for(ctx.seed, &format!("{}/sonic-model-forge", prop), i as u64);
+        let c = match new_case(ctx, &mut rng, &id, 1) { Some(c) => c, None => continue };
+        let (cs, vks) = match (c.comm_scalars(), c.vk_scalars()) { (Some(x), Some(y)) => (x, y), _ => continue };
+        let p0 = &c.polys[0];
+        // prover run on q (same bound / state) against commitment(p), claiming q(z)
+        let hi = p0.degree_bound().unwrap_or(c.supported);
+        let q = UniPoly::rand(p0.degree().max(1).min(hi), &mut rng);
+        let lq = LabeledPolynomial::new(p0.label().clone(), q.clone(), p0.degree_bound(), p0.hiding_bound());
+        let z = Fr::rand(&mut rng);
+        if let Ok(o) = open_at(ctx, &mut rng, &format!("{}/other-polynomial", id), &c, &[lq.clone()], &c.comms, &c.rands, z) {
+            let v = q.evaluate(&z);
+            if v != p0.evaluate(&z) && g1(o.w_s) == o.proof.w {
+                let out = check_scalar(ctx, &format!("{}/other-polynomial", id), &c, &vks, &vks, &cs, z, &[v], o.w_s, o.proof.random_v);
+                if out == Outcome3::Accept {
+                    ctx.rep.expect_fail(&id, "sonic/forged-proof-accepted/other-polynomial", "proof made from another polynomial accepted for a false value", replay(&c, &id, ctx.seed, "prover run on q against commitment(p)"));
+                }
+                ctx.rep.count("sonic/forge-other-polynomial");
+                ctx.rep.case(&format!("{} forge=other-polynomial", c.desc()), Some(format!("sonic/forge/otherpoly/{}", p0.degree())));
+            }
+        }
+        // proof for (p, z') presented at z with the value p(z')
+        let z2 = Fr::rand(&mut rng);
+        if let Ok(o) = open_at(ctx, &mut rng, &format!("{}/other-point", id), &c, &c.polys, &c.comms, &c.rands, z2) {
+            let v = p0.evaluate(&z2);
+            if v != p0.evaluate(&z) && g1(o.w_s) == o.proof.w {
+                let out = check_scalar(ctx, &format!("{}/other-point", id), &c, &vks, &vks, &cs, z, &[v], o.w_s, o.proof.random_v);
+                if out == Outcome3::Accept {
+                    ctx.rep.expect_fail(&id, "sonic/forged-proof-accepted/other-point", "proof for another point accepted", replay(&c, &id, ctx.seed, "replayed proof"));
+                }
+                ctx.rep.count("sonic/forge-other-point");
+                ctx.rep.case(&format!("{} forge=other-point", c.desc()), Some(format!("sonic/forge/otherpoint/{}", p0.degree())));
+            }
+        }
+    }
+    ctx.flush_model(&format!("{}-sonic-forge", prop));
+}
+
+/// batches: false claims at every position, cancelling errors, proof-list shapes, commitment changes
+fn batch_mutations(ctx: &mut Ctx, prop: &str, n: usize) {
+    for i in 0..n {
+        let id0 = format!("{}/sonic-model-batch/{}", prop, i);
+        if !ctx.selected(&id0) { continue; }
+        let mut rng = rng_for(ctx.seed, &format!("{}/sonic-model-batch", prop), i as u64);
+        let npoly = range(&mut rng, 2, 4);
+        let c = match new_case(ctx, &mut rng, &id0, npoly) { Some(c) => c, None => continue };
+        let cs = match c.comm_scalars() { Some(x) => x, None => continue };
+        let nl = range(&mut rng, 2, 3);
+        let (qs, ev) = gen_queries(&mut rng, &c, nl);
+        let (proofs, ws) = match batch_open(ctx, &mut rng, &id0, &c, &qs) { Ok(x) => x, Err(_) => continue };
+        if ws.len() != proofs.len() || !ws.iter().zip(&proofs).all(|(w, p)| g1(*w) == p.w) { continue; }
+        let rvs: Vec<Option<Fr>> = proofs.iter().map(|p| p.random_v).collect();
+        let keys: Vec<(String, Fr)> = ev.keys().cloned().collect();
+        // all-true: accepted for several verifier RNG states (different randomizer lists)
+        for s in 0..2 {
+            let mut vr = rng_for(ctx.seed ^ 0x5eed, &id0, s);
+            let honest = batch_check_scalar(ctx, &mut vr, &format!("{}/honest{}", id0, s), &c, &cs, &qs, &ev, &ws, &rvs);
+            if honest != Outcome3::Accept {
+                ctx.rep.expect_fail(&id0, "sonic/honest-batch-rejected", "honest batch rejected", replay(&c, &id0, ctx.seed, ""));
+            }
+        }
+        ctx.rep.case(&format!("{} batch honest", c.desc()), Some(format!("sonic-batch/{}/{}/honest", npoly, nl)));
+        for k in 0..keys.len() {
+            let id = format!("{}/value@{}", id0, k);
+            let mut ev2 = ev.clone();
+            *ev2.get_mut(&keys[k]).unwrap() += rand_nonzero(&mut rng);
+            let out = batch_check_scalar(ctx, &mut rng, &id, &c, &cs, &qs, &ev2, &ws, &rvs);
+            if out == Outcome3::Accept {
+                ctx.rep.expect_fail(&id, "sonic/false-claim-accepted/batch-value", "batch with one false value accepted", replay(&c, &id, ctx.seed, &format!("value at {:?} perturbed", keys[k].0)));
+            }
+            ctx.rep.count("sonic/batch-value");
+            ctx.rep.case(&format!("{} batch value@{} out={:?}", c.desc(), k, out), Some(format!("sonic-batch/{}/{}/value{}", npoly, nl, k)));
+        }
+        if keys.len() >= 2 {
+            // cancelling errors within one point (two polynomials at the same point) when available
+            let mut pair = None;
+            for a in 0..keys.len() { for b in a + 1..keys.len() { if keys[a].1 == keys[b].1 && pair.is_none() { pair = Some((a, b)); } } }
+            let (a, b) = pair.unwrap_or((0, 1));
+            let id = format!("{}/cancel@{},{}", id0, a, b);
+            let d = rand_nonzero(&mut rng);
+            let mut ev2 = ev.clone();
+            *ev2.get_mut(&keys[a]).unwrap() += d;
+            *ev2.get_mut(&keys[b]).unwrap() -= d;
+            let out = batch_check_scalar(ctx, &mut rng, &id, &c, &cs, &qs, &ev2, &ws, &rvs);
+            if out == Outcome3::Accept {
+                ctx.rep.expect_fail(&id, "sonic/false-claim-accepted/batch-cancelling", "cancelling errors accepted", replay(&c, &id, ctx.seed, "cancelling errors"));
+            }
+            ctx.rep.count(if pair.is_some() { "sonic/batch-cancel-same-point" } else { "sonic/batch-cancel-across-points" });
+            ctx.rep.case(&format!("{} batch cancel out={:?}", c.desc(), out), Some(format!("sonic-batch/{}/{}/cancel{}", npoly, nl, pair.is_some())));
+        }
+        {
+            // one commitment changed / one witness changed (single-fault neighbourhood of the batch)
+            let queried: Vec<usize> = (0..cs.len()).filter(|&i| qs.iter().any(|q| q.0 == cs[i].label)).collect();
+            if let Some(&j) = queried.get(range(&mut rng, 0, queried.len().max(1) - 1)) {
+                let id = format!("{}/comm@{}", id0, j);
+                let mut cs2 = cs.clone();
+                cs2[j].c += rand_nonzero(&mut rng);
+                let out = batch_check_scalar(ctx, &mut rng, &id, &c, &cs2, &qs, &ev, &ws, &rvs);
+                if out == Outcome3::Accept {
+                    ctx.rep.expect_fail(&id, "sonic/false-claim-accepted/batch-commitment", "batch with a changed commitment accepted", replay(&c, &id, ctx.seed, "commitment changed"));
+                }
+                ctx.rep.count("sonic/batch-comm");
+                ctx.rep.case(&format!("{} batch comm@{} out={:?}", c.desc(), j, out), Some(format!("sonic-batch/{}/{}/comm", npoly, nl)));
+            }
+            let k = range(&mut rng, 0, ws.len() - 1);
+            let id = format!("{}/witness@{}", id0, k);
+            let mut ws2 = ws.clone();
+            ws2[k] = Fr::rand(&mut rng);
+            let out = batch_check_scalar(ctx, &mut rng, &id, &c, &cs, &qs, &ev, &ws2, &rvs);
+            ctx.rep.count("sonic/batch-witness");
+            ctx.rep.case(&format!("{} batch witness@{} out={:?}", c.desc(), k, out), Some(format!("sonic-batch/{}/{}/witness", npoly, nl)));
+        }
+        if prop == "C05" || prop == "C03" {
+            // proof-list shapes with a false claim planted
+            let mut ev2 = ev.clone();
+            *ev2.get_mut(&keys[0]).unwrap() += rand_nonzero(&mut rng);
+            let mut shapes: Vec<(&str, Vec<Fr>, Vec<Option<Fr>>)> = vec![("empty", vec![], vec![])];
+            shapes.push(("truncated", ws[..ws.len() - 1].to_vec(), rvs[..rvs.len() - 1].to_vec()));
+            let mut e = ws.clone(); e.push(ws[0]); let mut er = rvs.clone(); er.push(rvs[0]);
+            shapes.push(("extended", e, er));
+            if ws.len() >= 2 {
+                let mut p = ws.clone(); p.swap(0, 1); let mut pr = rvs.clone(); pr.swap(0, 1);
+                shapes.push(("swapped", p, pr));
+            }
+            for (sname, w2, r2) in shapes {
+                let id = format!("{}/shape-{}", id0, sname);
+                let out = batch_check_scalar(ctx, &mut rng, &id, &c, &cs, &qs, &ev2, &w2, &r2);
+                if out == Outcome3::Accept {
+                    ctx.rep.expect_fail(&id, &format!("sonic/false-claim-accepted/shape-{}", sname), "false claim accepted with a malformed proof list", replay(&c, &id, ctx.seed, sname));
+                }
+                ctx.rep.count(&format!("sonic/shape-{}", sname));
+                ctx.rep.case(&format!("{} shape={} out={:?}", c.desc(), sname, out), Some(format!("sonic-batch/{}/shape-{}", npoly, sname)));
+            }
+            // a queried label without commitment / without evaluation: refused
+            let id = format!("{}/missing-comm", id0);
+            let gone = keys[0].0.clone();
+            let cs2: Vec<CommS> = cs.iter().filter(|x| x.label != gone).cloned().collect();
+            let out = batch_check_scalar(ctx, &mut rng, &id, &c, &cs2, &qs, &ev2, &ws, &rvs);
+            if out == Outcome3::Accept {
+                ctx.rep.expect_fail(&id, "sonic/false-claim-accepted/missing-commitment", "batch accepted although a queried commitment is missing", replay(&c, &id, ctx.seed, "missing commitment"));
+            }
+            let id = format!("{}/missing-eval", id0);
+            let mut ev3 = ev2.clone();
+            ev3.remove(&keys[0]);
+            let out2 = batch_check_scalar(ctx, &mut rng, &id, &c, &cs, &qs, &ev3, &ws, &rvs);
+            if out2 == Outcome3::Accept {
+                ctx.rep.expect_fail(&id, "sonic/false-claim-accepted/missing-evaluation", "batch accepted although a queried evaluation is missing", replay(&c, &id, ctx.seed, "missing evaluation"));
+            }
+            ctx.rep.count("sonic/shape-missing");
+            ctx.rep.case(&format!("{} missing comm/eval out={:?}/{:?}", c.desc(), out, out2), Some(format!("sonic-batch/{}/missing", npoly)));
+        }
+    }
+    ctx.flush_model(&format!("{}-sonic-batch", prop));
+}
+
+// ------------------------------------------------------------------------------------------------
+// C04(a): admission at trim / commit / open around every boundary
+// ------------------------------------------------------------------------------------------------
+fn admission(ctx: &mut Ctx, n: usize) {
+    for i in 0..n {
+        let id = format!("C04/sonic-model-admission/{}", i);
+        if !ctx.selected(&id) { continue; }
+        let mut rng = rng_for(ctx.seed, "C04/sonic-model-admission", i as u64);
+        let max_degree = range(&mut rng, 3, 16);
+        let trap = crate::kzg::Trap::random(&mut rng, max_degree);
+        let pp = trap.params(true);
+        let supported = if range(&mut rng, 0, 4) == 0 { max_degree } else { range(&mut rng, 1, max_degree) };
+        let shb = range(&mut rng, 0, 3);
+        // enforced bounds: None / empty / unsorted with duplicates; sometimes beyond `supported`
+        let tb: Option<Vec<usize>> = match range(&mut rng, 0, 4) {
+            0 => None,
+            1 => Some(vec![]),
+            _ => {
+                let k = range(&mut rng, 1, 3);
+                let hi = if range(&mut rng, 0, 5) == 0 { (supported + 1).min(max_degree + 1) } else { supported };
+                let mut v: Vec<usize> = (0..k).map(|_| range(&mut rng, 1, hi)).collect();
+                if coin(&mut rng) { v.push(v[0]); }
+                Some(v)
+            }
+        };
+        let r = guarded(|| PC::trim(&pp, supported, shb, tb.as_deref()));
+        let trim_ok = tb.as_ref().map(|v| v.iter().all(|b| *b <= supported)).unwrap_or(true);
+        let answered = matches!(r, Ok(Ok(_)));
+        if answered != trim_ok {
+            ctx.rep.expect_fail(&id, if answered { "sonic/trim-bound-beyond-supported-answered" } else { "sonic/trim-admissible-refused" },
+                &format!("trim: admissible={} answered={} (supported {} bounds {:?})", trim_ok, answered, supported, tb),
+                format!("# scheme: sonic\n# case: {}\n# seed: {}\n# rerun: .build/cargo/debug/pcv-harness C04 --seed {} --only {}\n", id, ctx.seed, ctx.seed, id));
+        }
+        let (ck, vk) = match r {
+            Ok(Ok(k)) => k,
+            Ok(Err(e)) => { ctx.ses.ask(&id, base_req("sonic.trim", &trap, true, supported, shb, &tb), ImplOutcome::Refuse(err_kind(&e))); ctx.rep.count("sonic/trim-refused"); ctx.rep.case(&format!("sonic trim refused D={} s={} B={:?}", max_degree, supported, tb), Some(format!("sonic/adm/trim-refused/{:?}", tb.as_ref().map(|v| v.len())))); continue; }
+            Err(a) => { ctx.ses.ask(&id, base_req("sonic.trim", &trap, true, supported, shb, &tb), ImplOutcome::Refuse(a)); ctx.rep.count("sonic/trim-refused"); continue; }
+        };
+        let degs = [0usize, 1, supported.saturating_sub(1), supported, supported + 1];
+        let deg = degs[range(&mut rng, 0, degs.len() - 1)].min(max_degree);
+        let p = UniPoly::rand(deg, &mut rng);
+        let cands: Vec<Option<usize>> = vec![None, None, Some(deg.max(1)), Some(deg.saturating_sub(1).max(1)), Some(supported), Some(supported + 1), Some(max_degree), Some(max_degree + 1),
+            tb.as_ref().and_then(|v| v.first().cloned()), tb.as_ref().and_then(|v| v.last().cloned())];
+        let bound = cands[range(&mut rng, 0, cands.len() - 1)];
+        // hiding around the window min(shb, bound)
+        let hbs: Vec<Option<usize>> = vec![None, None, Some(0), Some(shb), Some(shb + 1), bound.map(|b| b), bound.map(|b| b + 1)];
+        let hb = hbs[range(&mut rng, 0, hbs.len() - 1)];
+        let with_rng = range(&mut rng, 0, 5) != 0;
+        let lp = LabeledPolynomial::new("p".to_string(), p.clone(), bound, hb);
+        let mut replay_rng = rng.clone();
+        let draws: Vec<Fr> = (0..max_degree + 8).map(|_| Fr::rand(&mut replay_rng)).collect();
+        let mut crng = rng.clone();
+        let r = guarded(|| if with_rng { PC::commit(&ck, [&lp], Some(&mut crng)) } else { PC::commit(&ck, [&lp], None) });
+        let enforced: Vec<usize> = ck.enforced_degree_bounds.clone().unwrap_or_default();
+        let bound_ok = match bound { None => deg <= supported, Some(b) => enforced.contains(&b) && b >= deg };
+        let hiding_ok = match hb { None => true, Some(h) => with_rng && h <= shb && bound.map(|b| h <= b).unwrap_or(true) };
+        let admissible = bound_ok && hiding_ok;
+        let answered = matches!(r, Ok(Ok(_)));
+        if answered != admissible {
+            ctx.rep.expect_fail(&id, if answered { "sonic/inadmissible-request-committed" } else { "sonic/admissible-refused" },
+                &format!("commit: admissible={} answered={} (deg {} bound {:?} hb {:?} rng {} enforced {:?} supported {} shb {} max {})", admissible, answered, deg, bound, hb, with_rng, enforced, supported, shb, max_degree),
+                format!("# scheme: sonic\n# case: {}\n# seed: {}\n# rerun: .build/cargo/debug/pcv-harness C04 --seed {} --only {}\n", id, ctx.seed, ctx.seed, id));
+        }
+        let c = Case { trap, supported, shb, tbounds: tb.clone(), ck, vk, polys: vec![lp.clone()], kinds: vec!["dense"], comms: vec![], rands: vec![] };
+        let req = polys_args(c.base("sonic.commit"), &c.polys).arg("rng", wire::boolean(with_rng)).arg("draws", wire::fes(&draws));
+        let out = match &r {
+            Ok(Ok((cm, rd))) => ImplOutcome::Ok(vec![
+                ("cs".into(), Expect::G1s(cm.iter().map(|x| x.commitment().0).collect())),
+                ("rands".into(), Expect::Raw(wire::Val::L(rd.iter().map(|x| wire::fes(&x.blinding_polynomial.coeffs)).collect()))),
+            ]),
+            Ok(Err(e)) => ImplOutcome::Refuse(err_kind(e)),
+            Err(a) => ImplOutcome::Refuse(a.clone()),
+        };
+        ctx.ses.ask(&id, req, out);
+        // open follows the same admission (degree bound part)
+        if hb.is_none() {
+            let z = Fr::rand(&mut rng);
+            let mut sp = LogSponge::fresh();
+            let empty = Rand::empty_like();
+            let ro = guarded(|| PC::open(&c.ck, [&lp], &[] as &[LC], &z, &mut sp, [&empty], None));
+            let o_answered = matches!(ro, Ok(Ok(_)));
+            if o_answered != bound_ok {
+                ctx.rep.expect_fail(&id, if o_answered { "sonic/inadmissible-request-opened" } else { "sonic/admissible-open-refused" },
+                    &format!("open: admissible={} answered={} (deg {} bound {:?} enforced {:?} supported {})", bound_ok, o_answered, deg, bound, enforced, supported),
+                    format!("# scheme: sonic\n# case: {}\n# seed: {}\n", id, ctx.seed));
+            }
+            let mut xis = sp.challenges();
+            let mut extra = rng_for(3, &id, 79);
+            while xis.len() < 2 { xis.push(Fr::rand(&mut extra)); }
+            let req = rands_args(polys_args(c.base("sonic.open"), &c.polys), &[empty.clone()]).arg("z", wire::fe(&z)).arg("xis", wire::fes(&xis));
+            ctx.ses.ask(&id, req, match ro {
+                Ok(Ok(pr)) => ImplOutcome::Ok(vec![("w".into(), Expect::G1(pr.w)), ("rv".into(), Expect::OptFe(pr.random_v))]),
+                Ok(Err(e)) => ImplOutcome::Refuse(err_kind(&e)),
+                Err(a) => ImplOutcome::Refuse(a),
+            });
+        }
+        ctx.rep.count(&format!("sonic/admissible-{}", admissible));
+        ctx.rep.case(&format!("sonic admission D={} s={} shb={} B={:?} deg={} bound={:?} hb={:?} rng={} -> {}", max_degree, supported, shb, tb, deg, bound, hb, with_rng, answered),
+            Some(format!("sonic/adm/{}/{:?}/{:?}/{}", deg as i64 - supported as i64, bound.map(|b| (b as i64 - deg as i64).signum()), hb.map(|h| (h as i64 - shb as i64).signum()), admissible)));
+    }
+    ctx.flush_model("C04-sonic-admission");
+}
+
+trait EmptyLike {
+    fn empty_like() -> Self;
+}
+impl EmptyLike for Rand {
+    fn empty_like() -> Self {
+        use ark_poly_commit::PCCommitmentState;
+        Rand::empty()
+    }
+}
+
+// ------------------------------------------------------------------------------------------------
+// C08: commitments are the key-defined linear map (naive sum over the PUBLISHED key points)
+// ------------------------------------------------------------------------------------------------
+fn c08(ctx: &mut Ctx) {
+    use crate::props_c08::naive_sum;
+    let n = ctx.n(25, 300);
+    for i in 0..n {
+        let id = format!("C08/sonic-model/{}", i);
+        if !ctx.selected(&id) { continue; }
+        let mut rng = rng_for(ctx.seed, "C08/sonic-model", i as u64);
+        let npoly = range(&mut rng, 1, 3);
+        let c = match new_case(ctx, &mut rng, &id, npoly) { Some(c) => c, None => continue };
+        ask_trim_commit(ctx, &id, &c);
+        for ((p, cm), r) in c.polys.iter().zip(&c.comms).zip(&c.rands) {
+            // the published key points this polynomial is committed under
+            let (pg, pgg): (Vec<_>, Vec<_>) = match p.degree_bound() {
+                None => (c.ck.powers_of_g.clone(), c.ck.powers_of_gamma_g.clone()),
+                Some(d) => {
+                    let sp = c.ck.shifted_powers_of_g.as_ref().unwrap();
+                    let maxb = *c.ck.enforced_degree_bounds.as_ref().unwrap().last().unwrap();
+                    (sp[maxb - d..].to_vec(), c.ck.shifted_powers_of_gamma_g.as_ref().unwrap()[&d].clone())
+                }
+            };
+            let spec = naive_sum(&pg, &p.polynomial().coeffs) + naive_sum(&pgg, &r.blinding_polynomial.coeffs);
+            if spec.into_affine() != cm.commitment().0 {
+                ctx.rep.expect_fail(&id, "sonic/commit-not-key-defined", "commitment differs from the naive sum over the published key points",
+                    replay(&c, &id, ctx.seed, &format!("polynomial {}", p.label())));
+            }
+            if let Some(d) = p.degree_bound() {
+                if pg.len() != d + 1 {
+                    ctx.rep.expect_fail(&id, "sonic/shifted-window-size", &format!("shifted window for bound {} has {} elements", d, pg.len()), replay(&c, &id, ctx.seed, ""));
+                }
+            }
+        }
+        if c.comm_scalars().is_none() {
+            ctx.rep.expect_fail(&id, "sonic/commitment-not-key-defined", "commitment differs from beta^(D-d)*(g*p(beta)+gamma*r(beta))", replay(&c, &id, ctx.seed, ""));
+        }
+        // homomorphism on the implementation, per bound (non-hiding)
+        let p0 = &c.polys[0];
+        let bound = p0.degree_bound();
+        let hi = bound.unwrap_or(c.supported);
+        let q = UniPoly::rand(range(&mut rng, 0, hi), &mut rng);
+        let a = Fr::rand(&mut rng);
+        let b = Fr::rand(&mut rng);
+        let lin = &(p0.polynomial() * a) + &(&q * b);
+        let mk = |poly: UniPoly| LabeledPolynomial::new("x".to_string(), poly, bound, None);
+        let r3 = guarded(|| PC::commit(&c.ck, [&mk(p0.polynomial().clone()), &mk(q.clone()), &mk(lin.clone()), &mk(UniPoly::from_coefficients_vec(vec![Fr::zero(); 3]))], None));
+        match r3 {
+            Ok(Ok((cm, _))) => {
+                if (cm[0].commitment().0.mul(a) + cm[1].commitment().0.mul(b)).into_affine() != cm[2].commitment().0 {
+                    ctx.rep.expect_fail(&id, "sonic/not-homomorphic", "commit(a p + b q) != a commit(p) + b commit(q)", replay(&c, &id, ctx.seed, &format!("bound {:?}", bound)));
+                }
+                if !cm[3].commitment().0.is_zero() {
+                    ctx.rep.expect_fail(&id, "sonic/zero-not-identity", "zero polynomial does not commit to the identity", replay(&c, &id, ctx.seed, ""));
+                }
+            }
+            other => ctx.rep.expect_fail(&id, "sonic/in-domain-commit-refused", &format!("non-hiding commit refused: {:?}", other.map(|r| r.map(|_| ()).map_err(|e| err_kind(&e)))), replay(&c, &id, ctx.seed, "")),
+        }
+        counts(ctx, &c);
+        ctx.rep.case(&format!("{} c08", c.desc()), Some(format!("sonic/c08/{}/{:?}", npoly, bound.map(|d| c.trap.max_degree - d))));
+    }
+    ctx.flush_model("C08-sonic");
+}
+
+// ------------------------------------------------------------------------------------------------
+// C09: trim = the stated sub-lists / windows / per-bound G2 elements; truthful degree reports;
+// out-of-range requests refused
+// ------------------------------------------------------------------------------------------------
+fn c09(ctx: &mut Ctx) {
+    let n = ctx.n(60, 600);
+    for i in 0..n {
+        let id = format!("C09/sonic-model/{}", i);
+        if !ctx.selected(&id) { continue; }
+        let mut rng = rng_for(ctx.seed, "C09/sonic-model", i as u64);
+        let max_degree = range(&mut rng, 1, if ctx.thorough { 40 } else { 18 });
+        let trap = crate::kzg::Trap::random(&mut rng, max_degree);
+        let g2_powers = range(&mut rng, 0, 9) != 0;
+        let pp = trap.params(g2_powers);
+        let supported = match range(&mut rng, 0, 5) { 0 => max_degree, 1 => max_degree + 1, 2 => 0, _ => range(&mut rng, 1, max_degree) };
+        let shb = match range(&mut rng, 0, 6) { 0 => max_degree, 1 => max_degree + 1, 2 => 0, _ => range(&mut rng, 0, max_degree) };
+        let tb: Option<Vec<usize>> = match range(&mut rng, 0, 5) {
+            0 => None,
+            1 => Some(vec![]),
+            _ => {
+                let k = range(&mut rng, 1, 4);
+                let hi = match range(&mut rng, 0, 7) { 0 => supported + 1, 1 => max_degree + 1, _ => supported.max(1) };
+                let lo = if coin(&mut rng) { 0 } else { 1 };
+                let mut v: Vec<usize> = (0..k).map(|_| range(&mut rng, lo, hi.max(lo))).collect();
+                if coin(&mut rng) { v.push(v[0]); }
+                if coin(&mut rng) { v.push(supported.min(max_degree)); }
+                for a in (1..v.len()).rev() { let b = range(&mut rng, 0, a); v.swap(a, b); }
+                Some(v)
+            }
+        };
+        let r = guarded(|| PC::trim(&pp, supported, shb, tb.as_deref()));
+        let has_bounds = tb.as_ref().map(|v| !v.is_empty()).unwrap_or(false);
+        let in_range = supported <= max_degree && shb + 2 <= max_degree + 2
+            && tb.as_ref().map(|v| v.iter().all(|b| *b <= supported)).unwrap_or(true)
+            && (g2_powers || !has_bounds);
+        let answered = matches!(r, Ok(Ok(_)));
+        if answered != in_range {
+            ctx.rep.expect_fail(&id, if answered { "sonic/out-of-range-trim-answered" } else { "sonic/in-range-trim-refused" },
+                &format!("trim: in_range={} answered={} (D {} supported {} shb {} bounds {:?} g2 {})", in_range, answered, max_degree, supported, shb, tb, g2_powers),
+                format!("# scheme: sonic\n# case: {}\n# seed: {}\n# rerun: .build/cargo/debug/pcv-harness C09 --seed {} --only {}\n", id, ctx.seed, ctx.seed, id));
+        }
+        let req = base_req("sonic.trim", &trap, g2_powers, supported, shb, &tb);
+        match r {
+            Ok(Ok((ck, vk))) => {
+                // truthful reports and the stated shapes, directly on the implementation
+                let sorted = tb.clone().map(|mut v| { v.sort(); v.dedup(); v });
+                let shape_ok = ck.supported_degree() == supported && ck.powers_of_g.len() == supported + 1
+                    && ck.powers_of_gamma_g.len() == shb + 2 && ck.enforced_degree_bounds == sorted
+                    && ck.powers_of_g[..] == pp.powers_of_g[..=supported]
+                    && match (&ck.shifted_powers_of_g, has_bounds) {
+                        (Some(sp), true) => { let b = *sorted.as_ref().unwrap().last().unwrap(); sp[..] == pp.powers_of_g[max_degree - b..] }
+                        (None, false) => true,
+                        _ => false,
+                    }
+                    && match (&vk.degree_bounds_and_neg_powers_of_h, has_bounds) {
+                        (Some(v), true) => v.iter().map(|x| x.0).collect::<Vec<_>>() == *sorted.as_ref().unwrap() && v.iter().all(|(d, e)| *e == pp.neg_powers_of_h[&(max_degree - d)]),
+                        (None, false) => true,
+                        _ => false,
+                    }
+                    && match (&ck.shifted_powers_of_gamma_g, has_bounds) {
+                        (Some(m), true) => m.iter().all(|(d, w)| w.len() == (shb + 2).min(d + 2) && w.iter().enumerate().all(|(k, e)| *e == pp.powers_of_gamma_g[&(max_degree - d + k)])),
+                        (None, false) => true,
+                        _ => false,
+                    };
+                if !shape_ok {
+                    ctx.rep.expect_fail(&id, "sonic/trim-not-the-stated-sublists", "trimmed keys are not the stated sub-lists / windows / G2 elements, or a degree report is untruthful",
+                        format!("# scheme: sonic\n# case: {}\n# seed: {}\n# D {} supported {} shb {} bounds {:?}\n# rerun: .build/cargo/debug/pcv-harness C09 --seed {} --only {}\n", id, ctx.seed, max_degree, supported, shb, tb, ctx.seed, id));
+                }
+                ctx.ses.ask(&id, req, ImplOutcome::Ok(trim_expect(&ck, &vk)));
+                // commit at degree = supported succeeds, at supported + 1 errs
+                let lp = LabeledPolynomial::new("p".to_string(), UniPoly::rand(supported, &mut rng), None, None);
+                if !matches!(guarded(|| PC::commit(&ck, [&lp], None)), Ok(Ok(_))) {
+                    ctx.rep.expect_fail(&id, "sonic/commit-at-supported-refused", "commit at degree = supported refused", format!("# scheme: sonic\n# case: {}\n# seed: {}\n", id, ctx.seed));
+                }
+                let lp = LabeledPolynomial::new("p".to_string(), UniPoly::rand(supported + 1, &mut rng), None, None);
+                if matches!(guarded(|| PC::commit(&ck, [&lp], None)), Ok(Ok(_))) {
+                    ctx.rep.expect_fail(&id, "sonic/commit-beyond-supported-answered", "commit at degree = supported + 1 answered", format!("# scheme: sonic\n# case: {}\n# seed: {}\n", id, ctx.seed));
+                }
+            }
+            Ok(Err(e)) => ctx.ses.ask(&id, req, ImplOutcome::Refuse(err_kind(&e))),
+            Err(a) => ctx.ses.ask(&id, req, ImplOutcome::Refuse(a)),
+        }
+        ctx.rep.count(&format!("sonic/trim-in-range-{}", in_range));
+        ctx.rep.count(&format!("sonic/trim-bounds-{}", match &tb { None => "none", Some(v) if v.is_empty() => "empty", _ => "list" }));
+        ctx.rep.case(&format!("sonic trim D={} s={} shb={} B={:?} g2={} -> {}", max_degree, supported, shb, tb, g2_powers, answered),
+            Some(format!("sonic/trim/{}/{}/{:?}/{}", (supported as i64 - max_degree as i64).signum(), (shb as i64 - max_degree as i64).signum(), tb.as_ref().map(|v| v.len()), in_range)));
+    }
+    ctx.flush_model("C09-sonic");
 }
